@@ -17,6 +17,7 @@ import json
 import os
 import subprocess
 import sys
+import tempfile
 import time
 
 VERIF = os.path.dirname(os.path.dirname(os.path.abspath(__file__)))
@@ -94,7 +95,11 @@ def run_workers(prop, tier, seed, count, jobs, timeout):
     for w in range(jobs):
         cmd = [PY, '-c', 'import sys; sys.path.insert(0, %r); from harness import runner; runner.worker_main(%r, %r, %d, %d, %d, %d)'
                % (VERIF, prop, tier, seed, w, jobs, count)]
-        p = subprocess.Popen(cmd, stdout=subprocess.PIPE, stderr=subprocess.PIPE, env=env, cwd=VERIF, text=True)
+        # stderr goes to a temporary file, not a pipe: nobody drains a pipe while the run is in
+        # progress, and a worker that fills it (warnings of a long run) would block for ever
+        errf = tempfile.TemporaryFile(mode='w+', prefix='verif-worker-err-')
+        p = subprocess.Popen(cmd, stdout=subprocess.PIPE, stderr=errf, env=env, cwd=VERIF, text=True)
+        p.errf = errf
         procs.append(p)
     results = []
     errors = []
@@ -129,7 +134,12 @@ def run_workers(prop, tier, seed, count, jobs, timeout):
                     p.wait(timeout=30)
                 except subprocess.TimeoutExpired:
                     p.kill()
-        err = p.stderr.read() if p.stderr else ''
+        try:
+            p.errf.seek(0)
+            err = p.errf.read()[-20000:]
+            p.errf.close()
+        except Exception:
+            err = ''
         if p.returncode not in (0, None) and not timed_out:
             errors.append('worker exit %s: %s' % (p.returncode, err[-1500:]))
         elif err.strip() and 'Traceback' in err:
@@ -138,6 +148,11 @@ def run_workers(prop, tier, seed, count, jobs, timeout):
 
 
 def main(argv=None):
+    try:
+        import faulthandler, signal
+        faulthandler.register(signal.SIGUSR1, all_threads=True)   # kill -USR1 <pid>: where is the runner?
+    except Exception:
+        pass
     ap = argparse.ArgumentParser()
     ap.add_argument('prop')
     ap.add_argument('--tier', default=os.environ.get('VERIF_TIER', 'quick'))
